@@ -19,8 +19,8 @@ def run(ctx):
     opts = [o for o in opts if any(o['opt'][k] == 'true' for k in ('strip_whitespace', 'use_space_around_operators', 'reindent', 'indent_columns'))]
     ctx.cov['option_states'] = len(opts)
     simple = [o for o in opts if o['opt']['reindent'] == 'unset' and o['opt']['indent_columns'] == 'unset']
-    progs = sqlprog.programs(ctx, 250 if quick else 6000, PID + '_progs', seed=ctx.seed * 9 + 1)
-    progs += sqlprog.programs(ctx, 100 if quick else 2000, PID + '_progs_small', fuel=10, maxout=40, seed=ctx.seed * 9 + 2)
+    progs = sqlprog.programs(ctx, 250 if quick else 1500, PID + '_progs', seed=ctx.seed * 9 + 1)
+    progs += sqlprog.programs(ctx, 100 if quick else 600, PID + '_progs_small', fuel=10, maxout=40, seed=ctx.seed * 9 + 2)
     traces, meta = [], []
     unspellable = 0
     for p in progs:
